@@ -146,6 +146,15 @@ ScaledByClassCount ==
                         /\ Symmetric(Ssc) /\ PosDef(Ssc)                 \* so the Cholesky factor exists
                         /\ MMul(Ssc, MInv(Ssc)) = MId /\ MMul(MInv(Ssc), Ssc) = MId
 
+\* the scatter is a function of the deviations from the class means in the units of the data: expressing the
+\* features in other units (x -> c x + b) multiplies it by c^2 and nothing else.  (This law is what lets the
+\* harness place a scenario at unit scales from 1e-6 to 1e3 and far from the origin, where an ABSOLUTE constant in
+\* the code -- a ridge, a tolerance -- would show.)
+Aff(d, c, b) == [i \in DOMAIN d |-> [j \in Feat |-> c * d[i][j] + b]]
+AffineLaw ==
+    Done => \A c \in {2, -3}, b \in {0, 7} :
+                PScatter(Aff(data, c, b), part) = MScale(R(c * c), PScatter(data, part))
+
 \* ---------------- export (terminal states)
 Export == phase = "scaled" =>
     PrintT(ToJson([data |-> data, part |-> part, lab |-> lab, order |-> order, sp |-> sp, X |-> X, y |-> Y,
